@@ -617,7 +617,17 @@ def update_commit_protocol(ctx):
             v = n.value
             if isinstance(v, ast.Constant) and v.value == 0:
                 lits = [next(iter(c)) for c in cl if len(c) == 1]
-                ok = any((not p_) and (a == f"truthy({uc})" or "_items" in a) for a, p_ in lits)
+                def _is_candidates(atom: str) -> bool:
+                    if "_items" in atom or ".items" in atom:
+                        return True
+                    import re as _re
+                    m_ = _re.fullmatch(r"truthy\((\w+)\)", atom)
+                    if m_:
+                        vals_ = assignments_to(f, m_.group(1))
+                        return bool(vals_) and all(("_items" in norm(v_) or ".items" in norm(v_) or "search(" in norm(v_)
+                                                    or const_value(v_) is None) for v_ in vals_)
+                    return False
+                ok = any((not p_) and (a == f"truthy({uc})" or _is_candidates(a)) for a, p_ in lits)
                 yield Ob("C03.R4", ["C03", "C15"], f"{f.qual} | return 0 | guards {sorted(map(sorted, cl))[:3]}", ok,
                          "0 returned only when nothing matched or changed" if ok else
                          "0 returned although rows may have changed", ctx.prog.loc(n))
